@@ -139,6 +139,16 @@ PrivateReq(t, w, path, what) ==
               ELSE <<"error">>>>
   /\ UNCHANGED <<net, watch, known, kids, gens, pc>>
 
+\* ---- paper-wallet request: generate(account, interval) re-derives the three account branches from the
+\* shared master (so the master's children list grows); its result is a function of root key, network,
+\* account and interval only (PaperWallet.tla describes the record tree itself)
+PaperReq(t, acct, rows) ==
+  /\ pc[t] = <<"idle">> /\ Count
+  \* purposes 44', 49', 84' (toy numbering); the list is capped in the model to keep the state space small
+  /\ kids' = [kids EXCEPT !["full"][<<>>] = IF Len(@) < 3 THEN @ \o <<5, 6, 7>> ELSE @]
+  /\ obs' = <<"paper", "full", acct, rows, net>>
+  /\ UNCHANGED <<net, watch, known, gens, pc>>
+
 \* ---- address generator: the cursor lives in the generator, not in the node
 GenNew(t, g, w, path, kind) ==
   /\ pc[t] = <<"idle">> /\ ~gens[g].live /\ Exists(w, path) /\ Len(path) < MaxDepth /\ Count
@@ -216,6 +226,7 @@ Next ==
         \/ \E what \in {"wif", "xprv", "bip85"} : PrivateReq(t, w, p, what)
         \/ \E g \in GenIds, k \in {"p2wpkh"} : GenNew(t, g, w, p, k)
   \/ \E t \in Threads : CkdAppend(t)
+  \/ \E t \in Threads, a \in {0, 1}, r \in {0, 2} : PaperReq(t, a, r)
   \/ \E t \in Threads, g \in GenIds, s \in {0, 2} : GenStep(t, g, s)
   \/ \E t \in Threads, p \in Paths, fl \in {"xpub", "zpub"}, n \in Nets : ImportWatch(t, p, fl, n)
   \/ \E w \in Wallets, p \in Paths : Scramble(w, p)
@@ -231,6 +242,7 @@ NextGenFocus ==
   \/ \E t \in Threads, g \in GenIds, p \in {<<>>, <<1>>} : GenNew(t, g, "full", p, "p2wpkh")
   \/ \E t \in Threads, g \in GenIds, s \in {0, 2} : GenStep(t, g, s)
   \/ \E t \in Threads : ByPath(t, "full", <<1>>)
+  \/ \E t \in Threads, a \in {0, 1} : PaperReq(t, a, 2)
   \/ \E p \in {<<>>, <<1>>} : Scramble("full", p)
 SpecGenFocus == Init /\ [][NextGenFocus]_vars
 
@@ -283,6 +295,7 @@ NoMix ==
   /\ (obs[1] = "gen" /\ Len(obs[6]) = 4 => obs[6][3] = WNet(obs[3]))
   /\ (obs[1] = "extkeys" => obs[4][3] = WNet(obs[2]) /\ (obs[5] # <<"none">> => obs[5][3] = WNet(obs[2])))
   /\ (obs[1] = "private" /\ obs[4] \in {"wif"} /\ obs[5] # <<"error">> => obs[5][2] = WNet(obs[2]))
+  /\ (obs[1] = "paper" => obs[5] = net)
   /\ \A w \in Wallets : Live(w) => \A p \in known[w] : Node(w, p).net = WNet(w)
 ImportNet == watch.live => watch.net = net
 
